@@ -11,7 +11,9 @@ pub fn dispatch(args: &Args) -> i32 {
     let shard0 = args.num("shard", 0);
     // force=auto: derive the forced CPU level from the process index (C15)
     let force = if args.get("force") == Some("auto") {
-        ((shard0 / 6) % 3) as u32
+        // half of the processes keep AVX2, a quarter each get SSE2-only and
+        // the fallback
+        [0u32, 1, 0, 2][((shard0 / 6) % 4) as usize]
     } else {
         args.num("force", 0) as u32
     };
